@@ -54,7 +54,7 @@ func TestC08Compose(t *testing.T) {
 func TestC08Lines(t *testing.T) {
 	conts := [][]byte{{0xBA}, {0xB9}, {0x80, 0xBA}, {0x80, 0xB9, 'x'}, {0xBA, 'S', 'E', 'C'}, []byte("x"), {0xA9}, []byte(endS), []byte("\n\xba")}
 	rapidCheck(t, "C08Lines", func(rt *rapid.T) interface{} {
-		s := &C08Lines{Route: pick(rt, "route", []string{"Sprintf", "Sprintf", "Sprint", "SB", "SafeCont", "Lines", "Lines"})}
+		s := &C08Lines{Route: pick(rt, "route", []string{"Sprintf", "Sprintf", "Sprint", "SB", "SBReuse", "SafeCont", "Lines", "Lines"})}
 		// tokens before a line feed that end in a truncated sequence are likely
 		n := rapid.IntRange(1, 4).Draw(rt, "nl")
 		for i := 0; i < n; i++ {
